@@ -872,6 +872,10 @@ def fn_lines(rng, names, fmts, per, modes=MODES):
                              ftok("N", 0, 0, 2 ** (P - 1)), ftok("N", 0, 0, 2 ** (P - 1) + 1), ftok("N", 0, -1, 2 ** P - 1), rand_arg(rng, s, -40, 40, 0)][k]
                         if rng.randrange(12) == 0:
                             a = rand_arg(rng, s, -3, 3, 1)
+                        if rng.randrange(4) == 0:  # 1 - 2^-k and 1 + 2^-k
+                            kk = rng.randrange(1, P)
+                            a = rng.choice([ftok("N", 0, -1, 2 ** P - 2 ** (P - kk)), ftok("N", 0, 0, 2 ** (P - 1) + 2 ** (P - 1 - kk)),
+                                            ftok("N", 0, -1, 2 ** P - 1 - rng.getrandbits(kk))])
                     else:  # sin cos tan sqr
                         a = [rand_arg(rng, s, -10, 6), rand_arg(rng, s, 0, 1), rand_arg(rng, s, s.emin, s.emin + 3), rand_arg(rng, s, -s.P - 2, -s.P // 2),
                              rand_arg(rng, s, 2, 6), rand_arg(rng, s, -3, 2), rand_arg(rng, s, -1, 0), rand_arg(rng, s, -25, 6)][k]
